@@ -8,13 +8,22 @@ import copy
 from collections import deque
 from typing import Any
 
+import os as _os
+_DEBUG = bool(_os.environ.get("VF_DEBUG"))
+
 from adaptix import DebugTrail, Retort, dumper, loader
 from adaptix.load_error import LoadError, LoadExceptionGroup, TypeLoadError
 from adaptix.struct_trail import ItemKey, Attr, append_trail, extend_trail, get_trail
 
-import os as _os
-_DEBUG = bool(_os.environ.get("VF_DEBUG"))
 DT_MODES = (DebugTrail.DISABLE, DebugTrail.FIRST, DebugTrail.ALL)
+
+
+def dbg(msg):
+    """returns False (a property violation) and, with VF_DEBUG set, says which clause failed"""
+    if _DEBUG:
+        import sys
+        sys.stderr.write("VF_DEBUG violation clause: %s\n" % (msg,))
+    return False
 
 
 def realize(x):
@@ -245,7 +254,8 @@ def mutable_ids(x, acc=None, depth=0):
     elif isinstance(x, (list, tuple, set, frozenset, deque)):
         for v in x:
             mutable_ids(v, acc, depth + 1)
-    elif hasattr(x, "__dict__") and not isinstance(x, type):
+    elif hasattr(x, "__dict__") and not isinstance(x, type) and type(x).__module__ not in ("builtins", "decimal", "fractions", "datetime"):
+        # (under CrossHair type() of a symbolic int is int although the proxy object has a __dict__)
         acc.add(id(x))
         for v in vars(x).values():
             mutable_ids(v, acc, depth + 1)
